@@ -151,3 +151,65 @@ pub fn hub_decode_contract(_env: &Env, payload: &Bytes) -> Result<HubMessage, Co
     unsafe { DECODED = Some(m.clone()) };
     Ok(m)
 }
+
+// ------------------------------------------------------------------------------------------------
+// 2. C10: what can be decided of the codec itself
+// ------------------------------------------------------------------------------------------------
+/// to_i128 over the full 256-bit domain: Ok(x) <=> value <= i128::MAX, and then x == value
+#[kani::proof]
+fn c10_to_i128_full_domain() {
+    let limbs: [u64; 4] = [kani::any(), kani::any(), kani::any(), kani::any()];
+    let v = Uint::<256, 4>::from_limbs(limbs);
+    let r = to_i128(v);
+    let fits = limbs[2] == 0 && limbs[3] == 0 && limbs[1] < (1u64 << 63);
+    match r {
+        Ok(x) => {
+            assert!(fits, "OBL C10.amount_above_i128_max_rejected: amounts above 2^127-1 never decode");
+            assert!(x >= 0 && (x as u128) == ((limbs[1] as u128) << 64 | limbs[0] as u128), "OBL C10.amount_value_exact");
+            kani::cover!(x == i128::MAX, "COVER to_i128 max");
+        }
+        Err(e) => {
+            assert!(!fits && e == ContractError::InvalidAmount, "OBL C10.amount_in_range_accepted: every amount in 0..=2^127-1 decodes");
+            kani::cover!(limbs[1] == (1u64 << 63) && limbs[2] == 0 && limbs[3] == 0 && limbs[0] == 0, "COVER to_i128 2^127 rejected");
+        }
+    }
+}
+
+/// the numeric tag the encoders write for each message kind
+#[kani::proof]
+fn c10_message_type_tags() {
+    assert!(
+        <U256 as From<MessageType>>::from(MessageType::InterchainTransfer) == U256::from(0u8)
+            && <U256 as From<MessageType>>::from(MessageType::DeployInterchainToken) == U256::from(1u8)
+            && <U256 as From<MessageType>>::from(MessageType::DeployTokenManager) == U256::from(2u8)
+            && <U256 as From<MessageType>>::from(MessageType::SendToHub) == U256::from(3u8)
+            && <U256 as From<MessageType>>::from(MessageType::ReceiveFromHub) == U256::from(4u8),
+        "OBL C10.message_type_tags: the encoders write tags 0..4 as in the ITS wire format"
+    );
+    kani::cover!(true, "COVER tags");
+}
+
+/// optional byte fields: absent <-> empty, and nothing else is lost
+#[kani::proof]
+fn c10_optional_bytes_roundtrip() {
+    let env = Env::default();
+    let content: [u8; 2] = [kani::any(), kani::any()];
+    let n: usize = kani::any();
+    kani::assume(n <= 2);
+    let some: bool = kani::any();
+    let input: Option<Bytes> = if some { Some(Bytes::from_slice(&env, &content[..n])) } else { None };
+    let v = into_vec(input.clone());
+    assert!(v.len() == if some { n } else { 0 } && (n < 1 || !some || v[0] == content[0]) && (n < 2 || !some || v[1] == content[1]), "OBL C10.optional_bytes_encode: an absent field is written as the empty byte string, a present one verbatim");
+    let back = from_vec(&env, &v);
+    assert!(
+        match (&input, &back) {
+            (Some(b), Some(c)) => n > 0 && b == c,
+            (Some(_), None) => n == 0,
+            (None, None) => true,
+            (None, Some(_)) => false,
+        },
+        "OBL C10.optional_bytes_roundtrip: decoding gives the same field back, an empty optional field reads back as absent"
+    );
+    kani::cover!(some && n == 0, "COVER optional empty present");
+    kani::cover!(some && n == 2, "COVER optional two bytes");
+}
